@@ -20,7 +20,7 @@ from ..oracles import sigmodel as sm
 PID = "C06"
 LEVEL = "exploration"
 RULE = ("full product of operation sequences (depth<=2 quick / 3 thorough, 4 for the plain FunctionSignal) over the "
-        "21-operation signal alphabet x all read masks, on 7 kinds of function-backed signals (plain 1- and 2-component, "
+        "22-operation signal alphabet x all read masks, on 7 kinds of function-backed signals (plain 1- and 2-component, "
         "ZHS/AVZ/ARZ Askaryan, FFT/Full thermal noise under OwnedRandom); and of attribute-assignment sequences "
         "(depth<=2/3) x read masks on Specialized/Basic/Uniform/Layered tracers and their paths; distinct_nontrivial = "
         "distinct (kind, op sequence, mask) with at least one read before a mutation")
@@ -44,7 +44,9 @@ SIG_OPS = ["shift+3", "shift-5", "imul2", "idiv4", "filt_delay2", "filt_lowpass"
            # augmented assignment: the attribute is mutated in place and the *same* object is assigned back
            "times_iadd",
            # same number of samples, twice the step (a cache keyed by length alone cannot tell the grids apart)
-           "times_stretch", "with_times_stretch"]
+           "times_stretch", "with_times_stretch",
+           # a second component that carries its own, different filter (same padded length as the first)
+           "add_late_lowpass"]
 SIG_KINDS = ["plain_early", "plain_two", "zhs", "avz", "arz", "fftnoise", "fullnoise"]
 
 
@@ -165,6 +167,13 @@ def _apply_sig(obj, mod, op):
         if mod:
             mod = mod.copy()
             mod.comps.append(["late", 0.0, 0.0, 0.0, 1.0, []])
+    elif op == "add_late_lowpass":
+        other = FunctionSignal(np.array(obj.times), FUNCS["late"])
+        other.filter_frequencies(FILTERS["lowpass"][0], force_real=True)
+        obj = obj + other
+        if mod:
+            mod = mod.copy()
+            mod.comps.append(["late", 0.0, 0.0, 0.0, 1.0, [("lowpass", True)]])
     elif op == "copy":
         obj = obj.copy()
         if mod:
